@@ -442,17 +442,46 @@ DOCUMENTED_DEFAULTS = {
 }
 
 
+# the public create*/recv* methods and their parameters as documented when the table was frozen; the obligation
+# binds exactly these (method, parameter) pairs.  A method or a parameter that is not listed is NEW API: it is
+# recorded (coverage.unknown_api) and exercised generically where possible, but it is not evidence against a property.
+KNOWN_SIGNATURES = {
+    "create": ["number", "post_routine", "sequential", "tp", "time_unit", "max_time", "basis_local", "basis_remote",
+               "rotations_local", "rotations_remote", "random_basis_local", "random_basis_remote"],
+    "create_context": ["number", "sequential", "time_unit", "max_time"],
+    "create_keep": ["number", "post_routine", "sequential", "time_unit", "max_time", "min_fidelity_all_at_end", "max_tries"],
+    "create_keep_with_info": ["number", "post_routine", "sequential", "time_unit", "max_time", "min_fidelity_all_at_end"],
+    "create_measure": ["number", "time_unit", "max_time", "basis_local", "basis_remote", "rotations_local",
+                       "rotations_remote", "random_basis_local", "random_basis_remote"],
+    "create_rsp": ["number", "time_unit", "max_time", "basis_local", "rotations_local", "random_basis_local",
+                   "min_fidelity_all_at_end", "max_tries"],
+    "recv": ["number", "post_routine", "sequential", "tp"],
+    "recv_context": ["number", "sequential"],
+    "recv_keep": ["number", "post_routine", "sequential", "expect_phi_plus", "min_fidelity_all_at_end", "max_tries"],
+    "recv_keep_with_info": ["number", "post_routine", "sequential", "expect_phi_plus", "min_fidelity_all_at_end", "max_tries"],
+    "recv_measure": ["number", "expect_phi_plus", "basis_local", "basis_remote", "rotations_local", "rotations_remote"],
+    "recv_rsp": ["number", "expect_phi_plus", "min_fidelity_all_at_end", "max_tries"],
+    "recv_rsp_with_info": ["number", "expect_phi_plus", "min_fidelity_all_at_end", "max_tries"],
+}
+
+
 def signature_defaults_report():
-    """Compare the default of every parameter of every public create*/recv* method of EPRSocket with the
-    documented one.  Returns (public method names, list of differences 'method.param: ...')."""
+    """Compare the default of every KNOWN (method, parameter) of the public create*/recv* methods of EPRSocket with
+    the documented one.  Returns (known methods seen, differences 'method.param: ...' (these fail the obligation),
+    unknown API 'method' / 'method.param' (recorded only))."""
     import enum
     import inspect
 
     from netqasm.sdk.epr_socket import EPRSocket
 
-    diffs, methods = [], []
+    diffs, methods, unknown = [], [], []
+    seen = set()
     for name, fn in inspect.getmembers(EPRSocket, predicate=callable):
         if name.startswith("_") or not (name.startswith("create") or name.startswith("recv")):
+            continue
+        seen.add(name)
+        if name not in KNOWN_SIGNATURES:
+            unknown.append(name)
             continue
         try:
             params = inspect.signature(fn).parameters
@@ -460,11 +489,14 @@ def signature_defaults_report():
             diffs.append(f"{name}: signature not inspectable")
             continue
         methods.append(name)
+        for pn in KNOWN_SIGNATURES[name]:
+            if pn not in params:
+                diffs.append(f"{name}.{pn}: documented parameter is gone")
         for pn, p in params.items():
             if pn == "self":
                 continue
-            if pn not in DOCUMENTED_DEFAULTS:
-                diffs.append(f"{name}.{pn}: parameter without a documented default in the harness table")
+            if pn not in KNOWN_SIGNATURES[name] or pn not in DOCUMENTED_DEFAULTS:
+                unknown.append(f"{name}.{pn}")
                 continue
             if p.default is inspect.Parameter.empty:
                 got = "<required>"
@@ -474,4 +506,7 @@ def signature_defaults_report():
                 got = repr(p.default)
             if got != DOCUMENTED_DEFAULTS[pn]:
                 diffs.append(f"{name}.{pn}: default {got}, documented {DOCUMENTED_DEFAULTS[pn]}")
-    return methods, diffs
+    for name in KNOWN_SIGNATURES:
+        if name not in seen:
+            diffs.append(f"{name}: documented public method is gone")
+    return methods, diffs, unknown
